@@ -361,6 +361,12 @@ func (c *Config) validateCircuitBreaker() error {
 		if c.CircuitBreaker.IntervalSeconds <= 0 {
 			return fmt.Errorf("circuit breaker interval must be positive (got %d)", c.CircuitBreaker.IntervalSeconds)
 		}
+		// max_requests == 0 means "not set" (defaults to success_threshold). An explicit value
+		// below success_threshold could never collect enough successful trial requests to close
+		// the breaker again: it would stay half-open and reject traffic forever.
+		if c.CircuitBreaker.MaxRequests != 0 && c.CircuitBreaker.MaxRequests < c.CircuitBreaker.SuccessThreshold {
+			return fmt.Errorf("circuit breaker max requests (%d) must be at least the success threshold (%d)", c.CircuitBreaker.MaxRequests, c.CircuitBreaker.SuccessThreshold)
+		}
 	}
 	return nil
 }
